@@ -121,6 +121,7 @@ class Collector:
         self.failures = {}     # kind -> list of dict(case, detail) (smallest kept)
         self.fail_count = Counter()
         self.notes = Counter()
+        self.seed = None       # shard seed (set by the shard driver) so that a failure can be shrunk from its own shard
 
     # -- evaluation ----------------------------------------------------------------------
     def eval_case(self, case, source='generated'):
@@ -158,7 +159,7 @@ class Collector:
     def record_failure(self, kind, detail, case, source='generated'):
         self.fail_count[kind] += 1
         lst = self.failures.setdefault(kind, [])
-        lst.append(dict(case=case, detail=detail, source=source,
+        lst.append(dict(case=case, detail=detail, source=source, seed=self.seed,
                         size=len(json.dumps(case, default=str))))
         lst.sort(key=lambda d: d['size'])
         del lst[MAX_BUCKET_KEEP:]
@@ -241,6 +242,7 @@ def _shard(args):
     try:
         prop = load_prop(pid)
         col = Collector(prop, known)
+        col.seed = seed
         hypothesis_run(prop, tier, seed, examples, col)
         return ('ok', seed, col.to_dict())
     except Exception:
@@ -438,7 +440,7 @@ def run(pid, tier):
         case, detail = best['case'], best['detail']
         if tier == 'thorough' and best.get('source') == 'generated' and examples:
             sink = {}
-            for s in seeds:
+            for s in ([best['seed']] if best.get('seed') is not None else seeds):
                 hypothesis_run(prop, tier, s, examples, Collector(prop, known_features),
                                raise_kind=kind, shrink=True, sink=sink)
                 if sink:
